@@ -468,6 +468,33 @@ func runC12(c *Ctx, w *World, r *Report) {
 				k := fa.Lin(s.Index)
 				b1 := fa.BoundsAt(s.Ins.Block(), k)
 				b2 := fa.BoundsAt(s.Ins.Block(), k.Sub(linAtom("call:builtin len(p0)")))
+				if !(b1.HasLo && b1.Lo == 0 && b2.HasHi && b2.Hi == -1) {
+					// the guard as one boolean (a dissolved helper `0 <= k && k < len(bm)`, possibly negated): every way
+					// into the access, with the merged boolean threaded back to the comparisons that set it
+					alts := fa.CondsDNF(s.Ins.Block(), 0)
+					if len(alts) > 0 {
+						w1, w2 := Bounds{}, Bounds{}
+						for ai, cs := range alts {
+							for _, cs2 := range fa.expandBoolPhis([][]Cond{cs}) {
+								a1 := fa.boundsFrom(cs2, k)
+								a2 := fa.boundsFrom(cs2, k.Sub(linAtom("call:builtin len(p0)")))
+								if ai == 0 && !w1.HasLo && !w2.HasHi {
+									w1, w2 = a1, a2
+									continue
+								}
+								if !a1.HasLo || a1.Lo < w1.Lo || !w1.HasLo {
+									w1.HasLo, w1.Lo = a1.HasLo && w1.HasLo, a1.Lo
+								}
+								if !a2.HasHi || a2.Hi > w2.Hi || !w2.HasHi {
+									w2.HasHi, w2.Hi = a2.HasHi && w2.HasHi, a2.Hi
+								}
+							}
+						}
+						if w1.HasLo && w1.Lo == 0 && w2.HasHi && w2.Hi == -1 {
+							b1, b2 = w1, w2
+						}
+					}
+				}
 				if !(b1.HasLo && b1.Lo == 0) {
 					badS = "bm[k] read with k in " + b1.String() + ": the lower guard must be exactly k >= 0"
 				}
